@@ -546,13 +546,17 @@ def _proxy_limitation(e: BaseException) -> bool:
 
 
 def explore(run: Callable[[Ctx], Any], assumptions=(), max_paths=512,
-            feas_timeout_ms=2000, catch=(Exception,)) -> List[Path]:
+            feas_timeout_ms=2000, catch=(Exception,), max_secs: Optional[float] = None) -> List[Path]:
     """Enumerate every feasible path of ``run`` (a closure that builds fresh
     symbolic inputs and calls the real function).  ``assumptions`` are the
     precondition terms, available to feasibility pruning."""
+    import time as _time
+    t_start = _time.time()
     stack: List[List[bool]] = [[]]
     paths: List[Path] = []
     while stack:
+        if max_secs is not None and _time.time() - t_start > max_secs:
+            raise SymError(f"path exploration exceeded {max_secs}s ({len(paths)} paths so far)")
         prefix = stack.pop()
         c = Ctx(prefix, feas_timeout_ms=feas_timeout_ms, assumptions=assumptions)
         try:
